@@ -81,13 +81,14 @@ package dnum
 //@   arith wrap
 //@   ensures! exact: -9999999999999999 <= n && n <= 9999999999999999 ==> dnIsInt(r) && dnIntVal(r) == n
 //@   ensures! sign: (n == 0 <==> r.sign == 0) && (n < 0 <==> r.sign == -1) && (n > 0 <==> r.sign == 1)
+//@   ensures! isint: dnIsInt(r)
 
 //@ func (dn Dnum) ToInt64() (n, ok)
 //@   ensures! exact: ok ==> dnIsInt(dn) && n == dnIntVal(dn)
-//@   ensures! complete: !ok ==> !dnIsInt(dn) || (dn.exp == 19 && dn.coef >= 9223372036854775)
+//@   ensures! complete: !ok ==> !dnIsInt(dn) || dnIntVal(dn) > 9223372036854775807 || dnIntVal(dn) < -9223372036854775808
 //@ func (dn Dnum) ToInt() (n, ok)
 //@   ensures! exact: ok ==> dnIsInt(dn) && n == dnIntVal(dn)
-//@   ensures! complete: !ok ==> !dnIsInt(dn) || (dn.exp == 19 && dn.coef >= 9223372036854775)
+//@   ensures! complete: !ok ==> !dnIsInt(dn) || dnIntVal(dn) > 9223372036854775807 || dnIntVal(dn) < -9223372036854775808
 //@ lemma! fromint_toint64(n int64): -9999999999999999 <= n && n <= 9999999999999999 ==> ToInt64(FromInt(n)).ok && ToInt64(FromInt(n)).n == n
 
 //@ func check(c)
